@@ -109,7 +109,7 @@ Qed.
    arg3~2), for calls that fit one fragment.
 
    Vocabulary: Spec/ProtocolCall.v [s_callreq_full], [s_callres_full], [s_csum_input] (the
-   independent encoder of the complete payload, literals only); Proofs/CallLayoutP.v
+   independent encoder of the complete payload, literals only); Model/CallWire.v
    [call_frames mt mtc id body kind ops] = the frames reqResWriter puts on the wire:
    newFragment (flags placeholder, message header [body], checksum type, checksum
    placeholder) leaving [frag_capacity] bytes for chunks, the fragmenting writer of
@@ -121,7 +121,7 @@ Qed.
    [kind_ok kind] = checksum kind 0 (none), 1 (crc32), 3 (crc32c);
    [csum_value kind data] = the CRC-32 (IEEE / Castagnoli) of [data] from scratch.
    ====================================================================================== *)
-From Verif Require Import Model.Crc Model.Frag Model.FragWire Spec.ProtocolCall Spec.FragOk
+From Verif Require Import Model.Crc Model.Frag Model.FragWire Model.CallWire Spec.ProtocolCall Spec.FragOk
   Proofs.FragWireP Proofs.FragRoundtrip Proofs.CallLayoutP.
 
 (* newFragment leaves exactly frag_capacity = 65519 - (1 + |message header| + 1 + checksum size)
